@@ -93,7 +93,8 @@ def all_schemas(tier="quick", seed=1):
     # + schemas built by spec/SchemaBuild.tla (the same ones the view machine gets)
     import schemabuild
     gen = schemabuild.generated_schemas(10 if tier == "thorough" else 3, seed)[:4 if tier == "thorough" else 1]
-    return catalogue.view_schemas() + c06_schemas() + gen
+    # + the repository's own schemas (tools/xmlimport.py): two messages each (quick), all (thorough)
+    return catalogue.view_schemas() + c06_schemas() + gen + viewpipe.repo_schemas(tier, seed, 8 if tier == "thorough" else 2, naming=False)
 
 
 # (compiler, standard, mode, optimisation); mode rel = SBEPP_DISABLE_ASSERTS,
